@@ -737,8 +737,11 @@ Fixpoint show_xml (t : xml) : val :=
       VL [VS tag; VL (map (fun kv => VL [VS (fst kv); VS (snd kv)]) attrs); VS text; VL (map show_xml kids)]
   end.
 Definition show_parse_xml (o : option xml) : val := show_option show_xml o.
-(* canonical form for comparison with a namespace-aware reader: attributes sorted, namespace declarations dropped *)
-Definition is_xmlns (k : str) : bool := match strip_prefix (s2l "xmlns") k with Some _ => true | None => false end.
+(* canonical form for comparison with a namespace-aware reader: attributes sorted, namespace declarations and xsi: attributes dropped *)
+(* namespace declarations and xsi: typing attributes (xsi:type / xsi:nil) are not asserted values *)
+Definition is_xmlns (k : str) : bool :=
+  match strip_prefix (s2l "xmlns") k with Some _ => true | None =>
+  match strip_prefix (s2l "xsi:") k with Some _ => true | None => false end end.
 Fixpoint show_xml_canon (t : xml) : val :=
   match t with
   | Node tag attrs text kids =>
